@@ -708,34 +708,44 @@ def run():
 
     # ---- (a6) every registered payload class inside its container (key dispatch of ImageResource / TaggedBlock),
     #      and documents whose layers live in a Lr16 / Lr32 block
+    covered = {}
     ntc = 0
-    for what, cont, wa, ra, payload in F.typed_container_cases():
-        # only payloads that round-trip on their own (placeholders that do not are listed in CONSTRUCTED_SKIP)
+    import itertools
+    for what, cont, wa, ra, payload in itertools.chain(F.typed_container_cases(), F.boundary_container_cases()):
+        # default payloads: only those that round-trip on their own (placeholders that do not are listed in CONSTRUCTED_SKIP);
+        # boundary payloads are hand-built valid instances: all of them count
         pname = type(payload).__module__.split(".")[-1] + "." + type(payload).__name__
-        if pname in CONSTRUCTED_SKIP:
+        if " default " in (what + " ") and pname in CONSTRUCTED_SKIP:
             continue
         try:
             f = io.BytesIO()
             n = cont.write(f, *wa)
-        except Exception:
-            ck.count("typed-container:write-raises")
+        except Exception as e:
+            if " in block " in what or " in resource " in what:
+                ck.fail("boundary-payload-not-writable", {"what": what}, "write raised %r" % e, "a valid instance is writable")
+            else:
+                ck.count("typed-container:write-raises")
             continue
         b = f.getvalue()
         ntc += 1
+        covered.setdefault(pname, 0)
+        covered[pname] += 1
         if n != len(b):
             ck.fail("written-count-typed-container", {"what": what}, n, len(b))
+        y = None
         try:
             y = type(cont).frombytes(b, *ra)
             ok = (y == cont) and type(y.data) is type(cont.data)
             same = ok and y.tobytes(*wa) == b
+            how = "re-read != original (payload came back as %s)" % type(y.data).__name__
         except Exception as e:
             ok, same = False, False
+            how = "read raised %r" % e
         if not ok:
-            ck.fail("typed-container-roundtrip", {"what": what, "bytes": list(b[:200])},
-                    "re-read != original (payload came back as %s)" % (type(getattr(y, "data", None)).__name__ if "y" in dir() else "?"),
+            ck.fail("typed-container-roundtrip", {"what": what, "bytes": list(b[:300])}, how,
                     "X.frombytes(x.tobytes()) == x with the payload decoded to its registered class")
         elif not same:
-            ck.fail("typed-container-rewrite", {"what": what, "bytes": list(b[:200])}, "re-written bytes differ", "identical bytes")
+            ck.fail("typed-container-rewrite", {"what": what, "bytes": list(b[:300])}, "re-written bytes differ", "identical bytes")
     ck.count("typed-container-cases", ntc)
     for i in range(600 if thorough else 60):
         case = F.g_lr_case(rng, [1, 2][i % 2], [1, 2, 4][i % 3])
@@ -810,7 +820,6 @@ def run():
         ck.notes.append("model/implementation differ on fixture %s" % fnames[i])
 
     # ---- (c) leaf payload classes: oracle only
-    covered = {}
     per_class = {}
     for origin, obj, wkw, rkw, seen, lim in leaf_instances_from_fixtures(fixture_paths(lim_impl)):
         nm = type(obj).__name__
